@@ -90,7 +90,7 @@ def scenarios(tier, seed):
                                     ops=[list(x) for x in triples[i]], states="default", hashseed=0, latents=[]))
     for i in range(8):
         out.append(dict(family="dbn", mode="dbn", variant=i, hashseed=i % 2))
-    for i in range(3):
+    for i in range(4):
         out.append(dict(family="dbn-history", mode="dbnhist", variant=i, hashseed=i % 2))
     for i in range(6):
         out.append(dict(family="jt", mode="jt", variant=i, hashseed=i % 2))
@@ -113,6 +113,23 @@ def run_dbn_history(desc, M):
     v = desc["variant"]
     d = DBN()
     d.add_edges_from([(("A", 0), ("B", 0)), (("B", 0), ("C", 0)), (("A", 0), ("A", 1))])
+    if v == 3:
+        # a rejected remove_cpds call (second argument names a node without CPD / not in the model) leaves the CPD list unchanged
+        from pgmpy.factors.discrete import TabularCPD
+        c1 = TabularCPD(("A", 0), 2, [[0.4], [0.6]])
+        c2 = TabularCPD(("B", 0), 2, [[0.3, 0.8], [0.7, 0.2]], evidence=[("A", 0)], evidence_card=[2])
+        d.add_cpds(c1, c2)
+        before = list(d.cpds)
+        for bad in (("Q", 0), TabularCPD(("C", 0), 2, [[0.5, 0.5], [0.5, 0.5]], evidence=[("B", 0)], evidence_card=[2])):
+            try:
+                d.remove_cpds(c1, bad)
+                M.fail("remove_cpds with an argument the model does not hold is rejected", repr(bad))
+            except (ValueError, KeyError, nx.NetworkXError):
+                pass
+            M.check(len(d.cpds) == len(before) and all(a is b for a, b in zip(d.cpds, before)), "a rejected DBN remove_cpds call leaves the CPDs unchanged",
+                    detail=f"{len(d.cpds)} CPDs left of {len(before)}")
+            d.cpds = list(before)
+        return
     hist = [[("remove_node", ("A", 0)), ("add_edge", ("B", 0), ("A", 0))],
             [("remove_node", ("B", 0)), ("add_edge", ("C", 0), ("B", 0)), ("add_edge", ("B", 0), ("A", 0))],
             [("remove_nodes_from", [("A", 0)]), ("add_edge", ("C", 0), ("A", 0))]][v]
